@@ -26,6 +26,7 @@ PROPERTY = {
         "auto-07p DFDU/DFDP blocks are checked in C18's check",
     ],
 }
+PROPERTY["rule"] += ' A third of the models use x0..x3 as parameter and state names.'
 
 
 def get_jac(spec, dt, sparse=False, solver="euler"):
